@@ -26,7 +26,7 @@ class S(vlib.Spec):
         10: "Marshal failed or Unmarshal (Marshal d) is not d",
         11: "a lookup by name does not find the entry the IDL means",
         12: "a field lookup by name or id finds the wrong field",
-        13: "a method / parent service lookup finds the wrong entry",
+        13: "a method / parent service lookup finds the wrong entry, or GetAllMethods is not the methods of the service followed by those of its base services",
         14: "a Go type does not map to its own descriptor and back",
         15: "the real code panicked, or a generated package did not register the descriptor of its file",
         16: "a Filepath inside the descriptor is not the path of the file",
